@@ -356,7 +356,8 @@ CHECKS = {
         "level_note": "the bsdiff worker pipeline's schedules are sampled via GOMAXPROCS only; a panic inside its goroutines kills the process and is reported from the journal.",
         "rule": ("enumerated cases are distinct by construction; generated ones by SHA-1 of the spec. Non-trivial: >=2 controls with a non-zero "
                  "seek (diff stages); an op sequence that touches more chunks than the cache holds (lrufile); >=2 steps (far seeks)."),
-        "assumptions": ["old-file readers never return short reads (bytes.Reader), the contract lrufile documents"],
+        "assumptions": ["old-file readers never return short reads (bytes.Reader), the contract lrufile documents",
+                        "in two cases out of three (decided from the case alone) the differ gets seekable readers handed over at a non-zero position, behind a header: 'old' and 'new' are whatever remains to be read"],
         "required_classes": {"quick": ["old:empty", "new:empty", "new:shorter-than-partitions", "old:shorter-than-partitions", "cache:evictions", "seek:out-of-range", "old:>32MiB-cache"],
                              "thorough": ["old:empty", "new:empty", "new:shorter-than-partitions", "old:shorter-than-partitions", "cache:evictions", "seek:out-of-range", "old:>32MiB-cache", "size:>1MiB"]},
         "replay_race": False,
